@@ -240,16 +240,19 @@ pub fn value_for(stamp: u64, key_idx: u8, class: u8, cfg: &Cfg) -> Vec<u8> {
 }
 
 pub fn db_options(fs: &VerifFs, cfg: &Cfg) -> DbOptions {
+    // every field spelled out: `DbOptions::default()` allocates an 8 Mi-entry cache table and
+    // asks the OS for the current directory
     DbOptions {
         db_path: DB_PATH.to_string(),
         max_memtable_size: cfg.memtable,
         max_file_size: cfg.file,
         max_block_size: cfg.block,
         filesystem_provider: Arc::new(fs.clone()) as Arc<dyn FileSystem>,
+        filter_policy: Arc::new(raindb::BloomFilterPolicy::new(10)),
+        block_cache: raindb::verif::block_cache(4096),
         create_if_missing: true,
         error_if_exists: false,
         reuse_log_files: cfg.reuse,
-        ..DbOptions::default()
     }
 }
 
